@@ -75,3 +75,16 @@ Fixpoint emit_locked (ws : list bytes) (sched : list nat) : bytes :=
   | [] => []
   | t :: rest => nth t ws [] ++ emit_locked ws rest
   end.
+
+(* ---------- writes that may fail ----------
+   A write is reported to its caller as done or as failed.  [sent] is how many bytes of the
+   message a failed write had put on the wire before it gave up: 0 for a write that fails before
+   it starts (or on a connection that is then dead for good); more than 0 when a deadline cuts a
+   write short on a connection that stays in use. *)
+Record write := { w_msg : bytes; w_done : bool; w_sent : nat }.
+Definition wire_of_write (w : write) : bytes :=
+  if w_done w then enc_line (w_msg w) else firstn (w_sent w) (enc_line (w_msg w)).
+Definition wire (ws : list write) : bytes := concat (map wire_of_write ws).
+Definition reported_done (ws : list write) : list bytes := map w_msg (filter w_done ws).
+(* all-or-nothing writer: a failed write leaves nothing behind *)
+Definition clean_failures (ws : list write) : Prop := Forall (fun w => w_done w = false -> w_sent w = O) ws.
